@@ -750,7 +750,71 @@ func extractResources(p *pkgs, f *facts) {
 		}
 		b["socketDirOwnedByClient"] = valueField && copied
 	}
-	orderTail := []string{"killCleanupWheneverRunner", "socketDirOwnedByClient"}
+	// Start, RunnerFunc case of the runner switch: after `…socketDir, err = os.MkdirTemp(…)` every return statement of that case
+	// (outside the MkdirTemp's own error check) is directly preceded by a statement that removes the directory
+	// (os.RemoveAll(…socketDir) itself or a call of a local closure whose body does it)
+	{
+		okAll, nRet := false, 0
+		if st := p.fn("Client", "Start"); st != nil {
+			ast.Inspect(st.Body, func(n ast.Node) bool {
+				// (the runner switch is tagless: after normalisation its cases are the arms of an if/else chain)
+				var body []ast.Stmt
+				switch v := n.(type) {
+				case *ast.CaseClause:
+					if len(v.List) == 1 && strings.Contains(exprString(v.List[0]), "RunnerFunc") {
+						body = v.Body
+					}
+				case *ast.IfStmt:
+					if strings.Contains(exprString(v.Cond), "RunnerFunc!=nil") && strings.Contains(nodeCalls(v.Body), "os.MkdirTemp(") {
+						body = v.Body.List
+					}
+				}
+				if body == nil {
+					return true
+				}
+				removers := map[string]bool{}
+				seenMk := false
+				okAll = true
+				var walk func(list []ast.Stmt)
+				walk = func(list []ast.Stmt) {
+					for i, s := range list {
+						if as, ok := s.(*ast.AssignStmt); ok && len(as.Rhs) == 1 {
+							if strings.HasPrefix(exprString(as.Rhs[0]), "os.MkdirTemp(") {
+								seenMk = true
+								continue
+							}
+							if fl, ok := as.Rhs[0].(*ast.FuncLit); ok && strings.Contains(nodeCalls(fl.Body), "os.RemoveAll(") && len(as.Lhs) == 1 {
+								removers[exprString(as.Lhs[0])] = true
+							}
+						}
+						if is, ok := s.(*ast.IfStmt); ok {
+							if !seenMk || (i > 0 && isMkdirTempAssign(list[i-1])) {
+								continue // the MkdirTemp's own error check: there is nothing to remove yet
+							}
+							walk(is.Body.List)
+						}
+						if _, ok := s.(*ast.ReturnStmt); ok && seenMk {
+							nRet++
+							prevOK := false
+							if i > 0 {
+								if es, ok := list[i-1].(*ast.ExprStmt); ok {
+									c := exprString(es.X)
+									prevOK = strings.HasPrefix(c, "os.RemoveAll(") || removers[strings.TrimSuffix(c, "()")]
+								}
+							}
+							if !prevOK {
+								okAll = false
+							}
+						}
+					}
+				}
+				walk(body)
+				return false
+			})
+		}
+		b["socketDirRemovedIfNoRunner"] = okAll && nRet >= 2
+	}
+	orderTail := []string{"killCleanupWheneverRunner", "socketDirOwnedByClient", "socketDirRemovedIfNoRunner"}
 	var fields []string
 	js := map[string]interface{}{}
 	for _, k := range order {
@@ -943,4 +1007,9 @@ func helperClosesBroker(fn *ast.FuncDecl) bool {
 		return true
 	})
 	return found
+}
+
+func isMkdirTempAssign(s ast.Stmt) bool {
+	as, ok := s.(*ast.AssignStmt)
+	return ok && len(as.Rhs) == 1 && strings.HasPrefix(exprString(as.Rhs[0]), "os.MkdirTemp(")
 }
